@@ -229,48 +229,48 @@ theorem eval_ext_Fp (w : World) (e : Expr) :
 /-! ## 18. True cells of the positive fragment: soundness and completeness -/
 
 /-- the cover theorem read for one true cell: on `Fc`, a true cell compatible with `τ` means `e` holds under `τ` -/
-theorem Fc_true_sound (w : World) (hw : DomTruthy w) (τ : Asg) (e : Expr)
+theorem Fc_true_sound (w : World) (τ : Asg) (e : Expr)
     (hF : e.Fc = true) (hcov : Covers w τ e.vars) (hln : LitNodup e)
-    {env : Env} {rs : List (Env × Bool)} {b : Bool} (ht : EnvTruthy env) (hlf : LitFresh e.nodes env)
+    {env : Env} {rs : List (Env × Bool)} {b : Bool} (hlf : LitFresh e.nodes env)
     (h : eval w e env = .ok rs) {p : Env × Bool} (hp : p ∈ rs) (hpt : p.2 = true)
     (hag : agreesB τ p.1 = true) (hs : satE w e τ = .ok b) : b = true := by
   have hage : agreesB τ env = true := (eval_ext w e hF env rs h p hp).agrees hag
-  have hc := cover w hw τ e hF hcov hln env rs b ht hlf hage h hs
+  have hc := cover w τ e hF hcov hln env rs b hlf hage h hs
   have : p.2 ∈ (rs.filter fun p => agreesB τ p.1).map (·.2) :=
     List.mem_map.mpr ⟨p, List.mem_filter.mpr ⟨hp, hag⟩, rfl⟩
   rw [hc, List.mem_singleton] at this
   rw [← this]; exact hpt
 
 /-- the cover theorem read for an assignment: on `Fc`, it lies in a cell flagged with its truth value -/
-theorem Fc_cell_complete (w : World) (hw : DomTruthy w) (τ : Asg) (e : Expr)
+theorem Fc_cell_complete (w : World) (τ : Asg) (e : Expr)
     (hF : e.Fc = true) (hcov : Covers w τ e.vars) (hln : LitNodup e)
-    {env : Env} {rs : List (Env × Bool)} {b : Bool} (ht : EnvTruthy env) (hlf : LitFresh e.nodes env)
+    {env : Env} {rs : List (Env × Bool)} {b : Bool} (hlf : LitFresh e.nodes env)
     (hag : agreesB τ env = true) (h : eval w e env = .ok rs) (hs : satE w e τ = .ok b) :
     ∃ p ∈ rs, p.2 = b ∧ agreesB τ p.1 = true := by
-  obtain ⟨a, _, hav, ham, haa⟩ := cells_single (cover w hw τ e hF hcov hln env rs b ht hlf hag h hs)
+  obtain ⟨a, _, hav, ham, haa⟩ := cells_single (cover w τ e hF hcov hln env rs b hlf hag h hs)
   exact ⟨a, ham, hav, haa⟩
 
 /-- **true cells are sound** on the positive fragment: a true result cell compatible with the total assignment
 `τ` implies that `τ` satisfies `e` -/
-theorem true_sound (w : World) (hw : DomTruthy w) (τ : Asg) (e : Expr) :
+theorem true_sound (w : World) (τ : Asg) (e : Expr) :
     e.Fp = true → Covers w τ e.vars → LitNodup e →
-    ∀ env rs b, EnvTruthy env → LitFresh e.nodes env → eval w e env = .ok rs →
+    ∀ env rs b, LitFresh e.nodes env → eval w e env = .ok rs →
       ∀ p ∈ rs, p.2 = true → agreesB τ p.1 = true → satE w e τ = .ok b → b = true := by
   induction e with
   | cmp op l r =>
-    intro hF hcov hln env rs b ht hlf h p hp hpt hag hs
-    exact Fc_true_sound w hw τ _ (by simpa [Expr.Fp, Expr.Fc] using hF) hcov hln ht hlf h hp hpt hag hs
+    intro hF hcov hln env rs b hlf h p hp hpt hag hs
+    exact Fc_true_sound w τ _ (by simpa [Expr.Fp, Expr.Fc] using hF) hcov hln hlf h hp hpt hag hs
   | contains c i =>
-    intro hF hcov hln env rs b ht hlf h p hp hpt hag hs
-    exact Fc_true_sound w hw τ _ (by simpa [Expr.Fp, Expr.Fc] using hF) hcov hln ht hlf h hp hpt hag hs
+    intro hF hcov hln env rs b hlf h p hp hpt hag hs
+    exact Fc_true_sound w τ _ (by simpa [Expr.Fp, Expr.Fc] using hF) hcov hln hlf h hp hpt hag hs
   | truth t =>
-    intro hF hcov hln env rs b ht hlf h p hp hpt hag hs
-    exact Fc_true_sound w hw τ _ (by simpa [Expr.Fp, Expr.Fc] using hF) hcov hln ht hlf h hp hpt hag hs
+    intro hF hcov hln env rs b hlf h p hp hpt hag hs
+    exact Fc_true_sound w τ _ (by simpa [Expr.Fp, Expr.Fc] using hF) hcov hln hlf h hp hpt hag hs
   | hasType t c =>
-    intro hF hcov hln env rs b ht hlf h p hp hpt hag hs
-    exact Fc_true_sound w hw τ _ (by simpa [Expr.Fp, Expr.Fc] using hF) hcov hln ht hlf h hp hpt hag hs
+    intro hF hcov hln env rs b hlf h p hp hpt hag hs
+    exact Fc_true_sound w τ _ (by simpa [Expr.Fp, Expr.Fc] using hF) hcov hln hlf h hp hpt hag hs
   | elseIf l r ihl ihr =>
-    intro hF hcov hln env rs b ht hlf h p hp hpt hag hs
+    intro hF hcov hln env rs b hlf h p hp hpt hag hs
     simp only [Expr.Fp, Bool.and_eq_true] at hF
     obtain ⟨ls, g, h0, rfl, hg⟩ := eval_elseIf_inv h
     simp only [satE] at hs
@@ -285,18 +285,18 @@ theorem true_sound (w : World) (hw : DomTruthy w) (τ : Asg) (e : Expr) :
     cases ha2 : a.2 with
     | true =>
       rw [(hg a ha).1 ha2, List.mem_singleton] at hp; subst hp
-      have h1 := ihl hF.1 hcl hnl env ls bl ht (hlf.mono (subset_append_left _ _)) h0 a ha ha2 hag hbl
+      have h1 := ihl hF.1 hcl hnl env ls bl (hlf.mono (subset_append_left _ _)) h0 a ha ha2 hag hbl
       rw [← hb, h1]; rfl
     | false =>
       have hr := (hg a ha).2 ha2
-      have h2 := ihr hF.2 hcr hnr a.1 (g a) br (hxa.envTruthy hw ht)
+      have h2 := ihr hF.2 hcr hnr a.1 (g a) br
         (hxa.litFresh (hlf.mono (subset_append_right _ _)) hd) hr p hp hpt hag hbr
       rw [← hb, h2]; simp
   | not e _ =>
-    intro hF hcov hln env rs b ht hlf h p hp hpt hag hs
-    exact Fc_true_sound w hw τ _ (by simpa [Expr.Fp, Expr.Fc] using hF) hcov hln ht hlf h hp hpt hag hs
+    intro hF hcov hln env rs b hlf h p hp hpt hag hs
+    exact Fc_true_sound w τ _ (by simpa [Expr.Fp, Expr.Fc] using hF) hcov hln hlf h hp hpt hag hs
   | and l r ihl ihr =>
-    intro hF hcov hln env rs b ht hlf h p hp hpt hag hs
+    intro hF hcov hln env rs b hlf h p hp hpt hag hs
     simp only [Expr.Fp, Bool.and_eq_true] at hF
     obtain ⟨ls, g, h0, rfl, hg⟩ := eval_and_inv h
     simp only [satE] at hs
@@ -315,12 +315,12 @@ theorem true_sound (w : World) (hw : DomTruthy w) (τ : Asg) (e : Expr) :
     | true =>
       have hr := (hg a ha).1 ha2
       have haa : agreesB τ a.1 = true := (eval_ext_Fp w r hF.2 a.1 _ hr p hp).agrees hag
-      have h1 := ihl hF.1 hcl hnl env ls bl ht (hlf.mono (subset_append_left _ _)) h0 a ha ha2 haa hbl
-      have h2 := ihr hF.2 hcr hnr a.1 (g a) br (hxa.envTruthy hw ht)
+      have h1 := ihl hF.1 hcl hnl env ls bl (hlf.mono (subset_append_left _ _)) h0 a ha ha2 haa hbl
+      have h2 := ihr hF.2 hcr hnr a.1 (g a) br
         (hxa.litFresh (hlf.mono (subset_append_right _ _)) hd) hr p hp hpt hag hbr
       rw [← hb, h1, h2]; rfl
   | union l r ihl ihr =>
-    intro hF hcov hln env rs b ht hlf h p hp hpt hag hs
+    intro hF hcov hln env rs b hlf h p hp hpt hag hs
     simp only [Expr.Fp, Bool.and_eq_true] at hF
     obtain ⟨ls, g, rr, h0, hrr, rfl, hg⟩ := eval_union_inv h
     simp only [satE] at hs
@@ -336,14 +336,14 @@ theorem true_sound (w : World) (hw : DomTruthy w) (τ : Asg) (e : Expr) :
       cases ha2 : a.2 with
       | true =>
         rw [(hg a ha).1 ha2, List.mem_singleton] at hp; subst hp
-        have h1 := ihl hF.1 hcl hnl env ls bl ht (hlf.mono (subset_append_left _ _)) h0 a ha ha2 hag hbl
+        have h1 := ihl hF.1 hcl hnl env ls bl (hlf.mono (subset_append_left _ _)) h0 a ha ha2 hag hbl
         rw [← hb, h1]; rfl
       | false =>
         have hr := (hg a ha).2 ha2
-        have h2 := ihr hF.2 hcr hnr a.1 (g a) br (hxa.envTruthy hw ht)
+        have h2 := ihr hF.2 hcr hnr a.1 (g a) br
           (hxa.litFresh (hlf.mono (subset_append_right _ _)) hd) hr p hp hpt hag hbr
         rw [← hb, h2]; simp
-    · have h2 := ihr hF.2 hcr hnr env rr br ht (hlf.mono (subset_append_right _ _)) hrr p hp hpt hag hbr
+    · have h2 := ihr hF.2 hcr hnr env rr br (hlf.mono (subset_append_right _ _)) hrr p hp hpt hag hbr
       rw [← hb, h2]; simp
   | exists_ v e _ => intro hF; simp [Expr.Fp] at hF
   | forAll v e _ => intro hF; simp [Expr.Fp] at hF
@@ -351,28 +351,28 @@ theorem true_sound (w : World) (hw : DomTruthy w) (τ : Asg) (e : Expr) :
 /-- **cells are complete** on the positive fragment: a total assignment `τ` compatible with `env` lies in some
 result cell whose flag is the truth value of `e` under `τ`. (For `b = false` the converse fails on `Union`: a
 false cell compatible with `τ` does not mean that `e` is false under `τ` — F-C01-1.) -/
-theorem cell_complete (w : World) (hw : DomTruthy w) (τ : Asg) (e : Expr) :
+theorem cell_complete (w : World) (τ : Asg) (e : Expr) :
     e.Fp = true → Covers w τ e.vars → LitNodup e →
-    ∀ env rs b, EnvTruthy env → LitFresh e.nodes env → agreesB τ env = true → eval w e env = .ok rs →
+    ∀ env rs b, LitFresh e.nodes env → agreesB τ env = true → eval w e env = .ok rs →
       satE w e τ = .ok b → ∃ p ∈ rs, p.2 = b ∧ agreesB τ p.1 = true := by
   induction e with
   | cmp op l r =>
-    intro hF hcov hln env rs b ht hlf hag h hs
-    exact Fc_cell_complete w hw τ _ (by simpa [Expr.Fp, Expr.Fc] using hF) hcov hln ht hlf hag h hs
+    intro hF hcov hln env rs b hlf hag h hs
+    exact Fc_cell_complete w τ _ (by simpa [Expr.Fp, Expr.Fc] using hF) hcov hln hlf hag h hs
   | contains c i =>
-    intro hF hcov hln env rs b ht hlf hag h hs
-    exact Fc_cell_complete w hw τ _ (by simpa [Expr.Fp, Expr.Fc] using hF) hcov hln ht hlf hag h hs
+    intro hF hcov hln env rs b hlf hag h hs
+    exact Fc_cell_complete w τ _ (by simpa [Expr.Fp, Expr.Fc] using hF) hcov hln hlf hag h hs
   | truth t =>
-    intro hF hcov hln env rs b ht hlf hag h hs
-    exact Fc_cell_complete w hw τ _ (by simpa [Expr.Fp, Expr.Fc] using hF) hcov hln ht hlf hag h hs
+    intro hF hcov hln env rs b hlf hag h hs
+    exact Fc_cell_complete w τ _ (by simpa [Expr.Fp, Expr.Fc] using hF) hcov hln hlf hag h hs
   | hasType t c =>
-    intro hF hcov hln env rs b ht hlf hag h hs
-    exact Fc_cell_complete w hw τ _ (by simpa [Expr.Fp, Expr.Fc] using hF) hcov hln ht hlf hag h hs
+    intro hF hcov hln env rs b hlf hag h hs
+    exact Fc_cell_complete w τ _ (by simpa [Expr.Fp, Expr.Fc] using hF) hcov hln hlf hag h hs
   | not e _ =>
-    intro hF hcov hln env rs b ht hlf hag h hs
-    exact Fc_cell_complete w hw τ _ (by simpa [Expr.Fp, Expr.Fc] using hF) hcov hln ht hlf hag h hs
+    intro hF hcov hln env rs b hlf hag h hs
+    exact Fc_cell_complete w τ _ (by simpa [Expr.Fp, Expr.Fc] using hF) hcov hln hlf hag h hs
   | and l r ihl ihr =>
-    intro hF hcov hln env rs b ht hlf hag h hs
+    intro hF hcov hln env rs b hlf hag h hs
     simp only [Expr.Fp, Bool.and_eq_true] at hF
     obtain ⟨ls, g, h0, rfl, hg⟩ := eval_and_inv h
     simp only [satE] at hs
@@ -382,7 +382,7 @@ theorem cell_complete (w : World) (hw : DomTruthy w) (τ : Asg) (e : Expr) :
     obtain ⟨hnl, hnr, hd⟩ := litNodup_append hln
     have hcl : Covers w τ l.vars := fun v hv => hcov v (List.mem_append_left _ hv)
     have hcr : Covers w τ r.vars := fun v hv => hcov v (List.mem_append_right _ hv)
-    obtain ⟨a, ha, ha2, haa⟩ := ihl hF.1 hcl hnl env ls bl ht (hlf.mono (subset_append_left _ _)) hag h0 hbl
+    obtain ⟨a, ha, ha2, haa⟩ := ihl hF.1 hcl hnl env ls bl (hlf.mono (subset_append_left _ _)) hag h0 hbl
     have hxa := eval_ext_Fp w l hF.1 env ls h0 a ha
     cases hbl2 : bl with
     | false =>
@@ -392,11 +392,11 @@ theorem cell_complete (w : World) (hw : DomTruthy w) (τ : Asg) (e : Expr) :
       · rw [← hb, hbl2]; rfl
     | true =>
       rw [hbl2] at ha2
-      obtain ⟨p, hp, hpt, hpa⟩ := ihr hF.2 hcr hnr a.1 (g a) br (hxa.envTruthy hw ht)
+      obtain ⟨p, hp, hpt, hpa⟩ := ihr hF.2 hcr hnr a.1 (g a) br
         (hxa.litFresh (hlf.mono (subset_append_right _ _)) hd) haa ((hg a ha).1 ha2) hbr
       exact ⟨p, List.mem_flatMap.mpr ⟨a, ha, hp⟩, by rw [hpt, ← hb, hbl2]; rfl, hpa⟩
   | elseIf l r ihl ihr =>
-    intro hF hcov hln env rs b ht hlf hag h hs
+    intro hF hcov hln env rs b hlf hag h hs
     simp only [Expr.Fp, Bool.and_eq_true] at hF
     obtain ⟨ls, g, h0, rfl, hg⟩ := eval_elseIf_inv h
     simp only [satE] at hs
@@ -406,7 +406,7 @@ theorem cell_complete (w : World) (hw : DomTruthy w) (τ : Asg) (e : Expr) :
     obtain ⟨hnl, hnr, hd⟩ := litNodup_append hln
     have hcl : Covers w τ l.vars := fun v hv => hcov v (List.mem_append_left _ hv)
     have hcr : Covers w τ r.vars := fun v hv => hcov v (List.mem_append_right _ hv)
-    obtain ⟨a, ha, ha2, haa⟩ := ihl hF.1 hcl hnl env ls bl ht (hlf.mono (subset_append_left _ _)) hag h0 hbl
+    obtain ⟨a, ha, ha2, haa⟩ := ihl hF.1 hcl hnl env ls bl (hlf.mono (subset_append_left _ _)) hag h0 hbl
     have hxa := eval_ext_Fp w l hF.1 env ls h0 a ha
     cases hbl2 : bl with
     | true =>
@@ -416,11 +416,11 @@ theorem cell_complete (w : World) (hw : DomTruthy w) (τ : Asg) (e : Expr) :
       · rw [← hb, hbl2]; rfl
     | false =>
       rw [hbl2] at ha2
-      obtain ⟨p, hp, hpt, hpa⟩ := ihr hF.2 hcr hnr a.1 (g a) br (hxa.envTruthy hw ht)
+      obtain ⟨p, hp, hpt, hpa⟩ := ihr hF.2 hcr hnr a.1 (g a) br
         (hxa.litFresh (hlf.mono (subset_append_right _ _)) hd) haa ((hg a ha).2 ha2) hbr
       exact ⟨p, List.mem_flatMap.mpr ⟨a, ha, hp⟩, by rw [hpt, ← hb, hbl2]; rfl, hpa⟩
   | union l r ihl ihr =>
-    intro hF hcov hln env rs b ht hlf hag h hs
+    intro hF hcov hln env rs b hlf hag h hs
     simp only [Expr.Fp, Bool.and_eq_true] at hF
     obtain ⟨ls, g, rr, h0, hrr, rfl, hg⟩ := eval_union_inv h
     simp only [satE] at hs
@@ -434,26 +434,26 @@ theorem cell_complete (w : World) (hw : DomTruthy w) (τ : Asg) (e : Expr) :
     | true =>
       rw [hbl2] at hbl
       obtain ⟨a, ha, ha2, haa⟩ :=
-        ihl hF.1 hcl hnl env ls true ht (hlf.mono (subset_append_left _ _)) hag h0 hbl
+        ihl hF.1 hcl hnl env ls true (hlf.mono (subset_append_left _ _)) hag h0 hbl
       refine ⟨(a.1, true), List.mem_append_left _ (List.mem_flatMap.mpr ⟨a, ha, ?_⟩), ?_, haa⟩
       · rw [(hg a ha).1 ha2]; simp
       · rw [← hb, hbl2]; rfl
     | false =>
       -- the "right alone" part decides
       obtain ⟨p, hp, hpt, hpa⟩ :=
-        ihr hF.2 hcr hnr env rr br ht (hlf.mono (subset_append_right _ _)) hag hrr hbr
+        ihr hF.2 hcr hnr env rr br (hlf.mono (subset_append_right _ _)) hag hrr hbr
       exact ⟨p, List.mem_append_right _ hp, by rw [hpt, ← hb, hbl2]; rfl, hpa⟩
   | exists_ v e _ => intro hF; simp [Expr.Fp] at hF
   | forAll v e _ => intro hF; simp [Expr.Fp] at hF
 
 /-- **true cells are complete** on the positive fragment: a total assignment `τ` compatible with `env` that
 satisfies `e` lies in some true result cell -/
-theorem true_complete (w : World) (hw : DomTruthy w) (τ : Asg) (e : Expr)
+theorem true_complete (w : World) (τ : Asg) (e : Expr)
     (hF : e.Fp = true) (hcov : Covers w τ e.vars) (hln : LitNodup e)
-    (env : Env) (rs : List (Env × Bool)) (ht : EnvTruthy env) (hlf : LitFresh e.nodes env)
+    (env : Env) (rs : List (Env × Bool)) (hlf : LitFresh e.nodes env)
     (hag : agreesB τ env = true) (h : eval w e env = .ok rs) (hs : satE w e τ = .ok true) :
     ∃ p ∈ rs, p.2 = true ∧ agreesB τ p.1 = true :=
-  cell_complete w hw τ e hF hcov hln env rs true ht hlf hag h hs
+  cell_complete w τ e hF hcov hln env rs true hlf hag h hs
 
 /-! ## 19. Soundness and completeness of queries on Fp -/
 
@@ -463,7 +463,7 @@ cell of a `Union` may leave variables of the condition unbound: the assignment r
 them the head of their domain (which exists: non-empty domains), and `true_sound` applies to it. -/
 theorem sound_complete_Fp (w : World) (sel : List Term) (c : SExpr)
     (hF : c.Fp1 = true) (hsel : selF1 sel = true) (hms : (sel.flatMap Term.vars).Nodup)
-    (hdt : DomTruthy w) (hnd : ∀ v, (w.dom v).Nodup)
+    (hnd : ∀ v, (w.dom v).Nodup)
     (hne : ∀ v ∈ SQuery.vars { sel := sel, cond := some c }, w.dom v ≠ [])
     (hlit : LitNodup (build c))
     {rows rows' : List (List Val)}
@@ -511,7 +511,6 @@ theorem sound_complete_Fp (w : World) (sel : List Term) (c : SExpr)
     intro σ hσ; rw [← satE_build]; exact hpred σ hσ
   have hcovc : ∀ σ ∈ assignments w vs, Covers w σ (build c).vars :=
     fun σ hσ => hcovers σ hσ _ (fun u hu => (hvsm u).mpr (Or.inr hu))
-  have henvT : EnvTruthy ([] : Env) := fun _ _ h => by cases h
   have hlf0 : LitFresh (build c).nodes ([] : Env) := fun _ _ => rfl
   intro r
   constructor
@@ -552,7 +551,7 @@ theorem sound_complete_Fp (w : World) (sel : List Term) (c : SExpr)
     have hagp : agreesB σ p.1 = true := by
       rw [agreesB_append, Bool.and_eq_true] at hag; exact hag.2
     have hpredσ : pred σ = true :=
-      true_sound w hdt σ (build c) heF (hcovc σ hσ) hlit [] rs (pred σ) henvT hlf0 hrs p hp hpt hagp
+      true_sound w σ (build c) heF (hcovc σ hσ) hlit [] rs (pred σ) hlf0 hrs p hp hpt hagp
         (hsat σ hσ)
     have hσs : σ ∈ sols := by rw [hsolsEq]; exact List.mem_filter.mpr ⟨hσ, hpredσ⟩
     have := hτ σ hag (hcovers σ hσ _ (fun u hu => (hvsm u).mpr (Or.inl hu))) (g' σ) (hg' σ hσs)
@@ -567,7 +566,7 @@ theorem sound_complete_Fp (w : World) (sel : List Term) (c : SExpr)
     have hs := hsat σ hσ
     rw [hpredσ] at hs
     obtain ⟨a, ham, hav, haa⟩ :=
-      true_complete w hdt σ (build c) heF (hcovc σ hσ) hlit [] rs henvT hlf0 (agreesB_nil σ) hrs hs
+      true_complete w σ (build c) heF (hcovc σ hσ) hlit [] rs hlf0 (agreesB_nil σ) hrs hs
     have haT : a.1 ∈ T := by
       rw [hT]
       exact List.mem_map.mpr ⟨a, List.mem_filter.mpr ⟨ham, hav⟩, rfl⟩
